@@ -542,13 +542,13 @@ def make_source(cfg, log, vfs=None, hook=None, extra_remote=()):
     return h, user, fh, seqp
 
 
-def make_dest(cfg, log, vfs=None, hook=None):
+def make_dest(cfg, log, vfs=None, hook=None, extra_remote=()):
     cfg = norm_cfg(cfg)
     src_id = UnsignedByteField(cfg["src_id"][1], cfg["src_id"][0])
     dst_id = UnsignedByteField(cfg["dst_id"][1], cfg["dst_id"][0])
     user = RecUser(vfs or NativeFilestore(), log, "dst", hook)
     fh = RecFaults(log, "dst", cfg["fh_dst"])
-    table = RemoteEntityCfgTable([remote_cfg_for(cfg, src_id)])
+    table = RemoteEntityCfgTable([remote_cfg_for(cfg, src_id), *extra_remote])
     h = DestHandler(
         cfg=LocalEntityCfg(dst_id, _indication_cfg(cfg["ind_dst"]), fh),
         user=user,
@@ -815,16 +815,26 @@ class Session:
     """A source handler and a destination handler (with their entities, users, fault handlers and
     one shared event log) that can carry several consecutive transfers (C11)."""
 
-    def __init__(self, cfg, name="t", src_vfs=None, dst_vfs=None, hook=None):
+    def __init__(self, cfg, name="t", src_vfs=None, dst_vfs=None, hook=None, alt_cfg=None):
+        """alt_cfg: configuration of a second sending entity (different entity id, own MIB entry at
+        the receiver) whose transfers can precede the subject on the same DestHandler (C11)."""
         self.cfg = norm_cfg(cfg)
+        self.alt_cfg = None if alt_cfg is None else norm_cfg(alt_cfg)
         self.log = []
         self.root = fresh_dir(name)
         self.owner = object()
         prev = CLOCK.owner
         CLOCK.owner = self.owner
+        self.src2 = None
         try:
             sh, self.src_user, self.src_fh, self.seqp = make_source(self.cfg, self.log, src_vfs, hook)
-            dh, self.dst_user, self.dst_fh = make_dest(self.cfg, self.log, dst_vfs, hook)
+            extra = []
+            if self.alt_cfg is not None:
+                a = self.alt_cfg
+                extra.append(remote_cfg_for(a, UnsignedByteField(a["src_id"][1], a["src_id"][0])))
+                sh2, self.src2_user, self.src2_fh, self.seqp2 = make_source(a, self.log, src_vfs, hook)
+                self.src2 = SrcEntity(sh2, self.log, self.cfg["transport"])
+            dh, self.dst_user, self.dst_fh = make_dest(self.cfg, self.log, dst_vfs, hook, extra_remote=extra)
         finally:
             CLOCK.owner = prev
         self.src = SrcEntity(sh, self.log, self.cfg["transport"])
@@ -845,7 +855,7 @@ class Sim:
     session's; request-level mode/closure, file, faults and pacing are this case's).
     """
 
-    def __init__(self, case, name="t", src_vfs=None, dst_vfs=None, hook=None, keep_tracker=False, fresh_clock=True, session=None):
+    def __init__(self, case, name="t", src_vfs=None, dst_vfs=None, hook=None, keep_tracker=False, fresh_clock=True, session=None, alt_cfg=None):
         install_clock()
         if fresh_clock:
             CLOCK.reset()
@@ -865,7 +875,7 @@ class Sim:
         self.dst_vfs = dst_vfs
         self.own_session = session is None
         if session is None:
-            session = Session(self.cfg, name, src_vfs, dst_vfs, hook)
+            session = Session(self.cfg, name, src_vfs, dst_vfs, hook, alt_cfg=alt_cfg)
         self.sess = session
         self.owner = session.owner
         self.log = session.log
@@ -892,6 +902,10 @@ class Sim:
             self.src_path.write_bytes(content)
         self.src, self.dst = session.src, session.dst
         self.src_user, self.src_fh, self.seqp = session.src_user, session.src_fh, session.seqp
+        if case.get("via") == "alt":
+            # transfer sent by the session's second sending entity (case cfg = its configuration)
+            self.src = session.src2
+            self.src_user, self.src_fh, self.seqp = session.src2_user, session.src2_fh, session.seqp2
         self.dst_user, self.dst_fh = session.dst_user, session.dst_fh
         self.src.ncalls = 0
         self.dst.ncalls = 0
@@ -913,6 +927,21 @@ class Sim:
 
             msgs = [MessageToUserTlv(m) for m in self.case["msgs"]]
         dst_id = UnsignedByteField(cfg["dst_id"][1], cfg["dst_id"][0])
+        extra = {}
+        opts = self.case.get("opts") or {}
+        if opts.get("fs_requests") is not None:
+            from spacepackets.cfdp import FileStoreRequestTlv
+            from spacepackets.cfdp.tlv import FilestoreActionCode
+
+            extra["fs_requests"] = [FileStoreRequestTlv(FilestoreActionCode(a), n) for a, n in opts["fs_requests"]]
+        if opts.get("flow_label") is not None:
+            from spacepackets.cfdp import FlowLabelTlv
+
+            extra["flow_label_tlv"] = FlowLabelTlv(bytes(opts["flow_label"]))
+        if opts.get("fh_overrides") is not None:
+            from spacepackets.cfdp import FaultHandlerOverrideTlv
+
+            extra["fault_handler_overrides"] = [FaultHandlerOverrideTlv(ConditionCode[c], FH_CODES[h]) for c, h in opts["fh_overrides"]]
         if self.content is None:
             return PutRequest(
                 destination_id=dst_id,
@@ -921,6 +950,7 @@ class Sim:
                 trans_mode=None if cfg["req_mode"] is None else MODES[cfg["req_mode"]],
                 closure_requested=cfg["req_closure"],
                 msgs_to_user=msgs,
+                **extra,
             )
         return PutRequest(
             destination_id=dst_id,
@@ -929,6 +959,7 @@ class Sim:
             trans_mode=None if cfg["req_mode"] is None else MODES[cfg["req_mode"]],
             closure_requested=cfg["req_closure"],
             msgs_to_user=msgs,
+            **extra,
         )
 
     def put(self):
